@@ -420,7 +420,7 @@ ITER_MODELS = {"std::iter::Iterator::find_map": "find_map", "std::iter::Iterator
                "std::iter::Iterator::all": "all", "std::iter::Iterator::for_each": "for_each"}
 
 
-def inline(body, facts, keep=(), closures=True, helpers=True, drops=True, models=True, depth=MAX_DEPTH, only=None):
+def inline(body, facts, keep=(), closures=True, helpers=True, drops=True, models=True, depth=MAX_DEPTH, only=None, force=()):
     """Body with local helpers / closures / modelled combinators / local Drop impls spliced in.
     keep: npaths or last segments of functions that must stay calls (what the rule itself looks for).
     only: when given, a predicate on the callee Body that must hold for it to be spliced."""
@@ -451,7 +451,7 @@ def inline(body, facts, keep=(), closures=True, helpers=True, drops=True, models
                             B.splice(bid, cb, t["args"], t.get("dest"), t.get("target"), t.get("unwind"), not t.get("direct"), t.get("line"))
                             progress = True
                             continue
-                    elif not is_clo and helpers and not kept(cb) and cb.abi in (None, "Rust") and cb.kind in ("Fn", "AssocFn"):
+                    elif not is_clo and helpers and not kept(cb) and (cb.abi in (None, "Rust") or cb.npath in force or cb.npath.rsplit("::", 1)[-1] in force) and cb.kind in ("Fn", "AssocFn"):
                         B.splice(bid, cb, t["args"], t.get("dest"), t.get("target"), t.get("unwind"), False, t.get("line"))
                         progress = True
                         continue
